@@ -240,6 +240,8 @@ L_SERVES = {
     'bcast':     ['C01', 'C02', 'C04', 'C05', 'C07', 'C08', 'C09'],
     'axioms':    ['C09'],
     'theorems':  [],
+    'lem_traced': ['C10', 'C06'],
+    'witness': [],
 }
 L_SERVES_FN = {
     'lem_mut.lemma_link_inv': ['C01', 'C03', 'C05', 'C18'],
@@ -256,6 +258,8 @@ def lemma_serves(mod, fn):
 
 
 THEOREM_SERVES = {
+    'theorem_projection_of_held_pointers': ['C01', 'C05', 'C06', 'C07'], 'theorem_projection_of_cursor': ['C01', 'C04', 'C08'],
+    'theorem_traced_credit_available': ['C10', 'C06'],
     'lemma_requeue_parts': ['C11'], 'theorem_c11_trace_panic_preserves_inv': ['C11', 'C10'],
     'reach_n': [], 'lemma_reach_prot': ['C01', 'C05', 'C14'],
     'theorem_c01_reachable_is_alive': ['C01', 'C14', 'C11'],
